@@ -458,4 +458,325 @@ theorem newest_spec {evs : List (Ev D)} (h : evs ≠ []) :
   let ⟨t, h1, h2, h3⟩ := sortBy_last (fun x : Ev D => x.ts) evs h
   ⟨t, h1, h2, h3⟩
 
+/-! ## buckets -/
+
+/-- the metadata `create_bucket` stores: `name` defaults to the bucket id when not truthy -/
+def storedMeta (b : String) (m : Meta) : Meta :=
+  { m with name := match truthy m.name with | some n => some n | none => some b }
+
+theorem createBucket_inv {s : St D} (h : Inv s) (b : String) (m : Meta) :
+    Inv (createBucket s b m) := setKey_inv h b evsOk_nil
+
+/-- `create_bucket` always succeeds; an existing bucket is replaced and emptied -/
+theorem createBucket_view {s : St D} (_h : Inv s) (b : String) (m : Meta) :
+    view (createBucket s b m) = Spec.create (view s) b (storedMeta b m) :=
+  view_setKey s b _
+
+/-- truthy-only update of memory's `update_bucket` (`{}` is falsy) -/
+def memApply (u : Upd) (m : Meta) : Meta :=
+  { m with
+    type := (truthy u.type).getD m.type
+    client := (truthy u.client).getD m.client
+    hostname := (truthy u.hostname).getD m.hostname
+    name := match truthy u.name with | some n => some n | none => m.name
+    data := match u.data with | some d => if d = "{}" then m.data else d | none => m.data }
+
+theorem updateBucket_ok {s s' : St D} {b : String} {u : Upd} (hu : updateBucket s b u = .ok s') :
+    ∃ m evs, lookup s b = some (m, evs) ∧ s' = setKey s b (memApply u m, evs) := by
+  unfold updateBucket at hu
+  cases hl : lookup s b with
+  | none => rw [hl] at hu; cases hu
+  | some p =>
+    obtain ⟨m, evs⟩ := p
+    rw [hl] at hu
+    simp only [Except.ok.injEq] at hu
+    exact ⟨m, evs, rfl, hu.symm⟩
+
+theorem updateBucket_inv {s s' : St D} {b : String} {u : Upd} (h : Inv s)
+    (hu : updateBucket s b u = .ok s') : Inv s' := by
+  obtain ⟨m, evs, hl, rfl⟩ := updateBucket_ok hu
+  have ho : EvsOk evs := inv_lookup (v := (m, evs)) h hl
+  exact setKey_inv h b (v := (memApply u m, evs)) ho
+
+theorem updateBucket_view {s s' : St D} {b : String} {u : Upd} (_h : Inv s)
+    (hu : updateBucket s b u = .ok s') :
+    (view s b).isSome ∧ view s' = Spec.update (view s) b (memApply u) := by
+  obtain ⟨m, evs, hl, rfl⟩ := updateBucket_ok hu
+  have hv : view s b = some (m, evs) := hl
+  refine ⟨by rw [hv]; rfl, ?_⟩
+  rw [view_setKey]
+  unfold Spec.update
+  rw [hv]
+
+theorem updateBucket_missing {s : St D} {b : String} (_h : Inv s) (hb : view s b = none)
+    (u : Upd) : updateBucket s b u = .error .valueError := by
+  have hl : lookup s b = none := hb
+  unfold updateBucket; rw [hl]
+
+theorem deleteBucket_ok {s s' : St D} {b : String} (hd : deleteBucket s b = .ok s') :
+    (lookup s b).isSome ∧ s' = s.filter (fun p => decide (p.1 ≠ b)) := by
+  unfold deleteBucket at hd
+  cases hl : lookup s b with
+  | none => rw [hl] at hd; cases hd
+  | some p =>
+    rw [hl] at hd
+    simp only [Except.ok.injEq] at hd
+    exact ⟨rfl, hd.symm⟩
+
+theorem deleteBucket_inv {s s' : St D} {b : String} (h : Inv s)
+    (hd : deleteBucket s b = .ok s') : Inv s' := by
+  obtain ⟨_, rfl⟩ := deleteBucket_ok hd
+  exact filter_inv h b
+
+theorem deleteBucket_view {s s' : St D} {b : String} (_h : Inv s)
+    (hd : deleteBucket s b = .ok s') :
+    (view s b).isSome ∧ view s' = Spec.deleteBucket (view s) b := by
+  obtain ⟨h1, rfl⟩ := deleteBucket_ok hd
+  exact ⟨h1, view_filter s b⟩
+
+theorem deleteBucket_missing {s : St D} {b : String} (_h : Inv s) (hb : view s b = none) :
+    deleteBucket s b = .error .valueError := by
+  have hl : lookup s b = none := hb
+  unfold deleteBucket; rw [hl]
+
+theorem getMetadata_eq {s : St D} (_h : Inv s) (b : String) :
+    getMetadata s b =
+      (match view s b with | some (m, _) => .ok m | none => .error .valueError) := by
+  unfold getMetadata view
+  cases lookup s b with
+  | none => rfl
+  | some p => rfl
+
+theorem bucketsOf_eq {s : St D} (h : Inv s) (b : String) (m : Meta) :
+    (b, m) ∈ bucketsOf s ↔ ∃ es, view s b = some (m, es) := by
+  unfold bucketsOf view
+  rw [List.mem_map]
+  constructor
+  · rintro ⟨p, hp, he⟩
+    obtain ⟨k, m', es⟩ := p
+    simp only [Prod.mk.injEq] at he
+    obtain ⟨rfl, rfl⟩ := he
+    exact ⟨es, lookup_of_mem h.1 hp⟩
+  · rintro ⟨es, hl⟩
+    exact ⟨(b, (m, es)), lookup_mem hl, rfl⟩
+
+/-! ## events -/
+
+theorem ids_nodup {s : St D} {b : String} {m : Meta} {es : List (Ev D)} (h : Inv s)
+    (hv : view s b = some (m, es)) : (es.filterMap (·.id)).Nodup ∧ ∀ x ∈ es, x.id.isSome :=
+  inv_lookup (v := (m, es)) h hv
+
+theorem view_onEvents {s : St D} {b : String} {m : Meta} {evs : List (Ev D)}
+    (hl : lookup s b = some (m, evs)) (f : List (Ev D) → List (Ev D)) :
+    view (setKey s b (m, f evs)) = Spec.onEvents (view s) b f := by
+  have hv : view s b = some (m, evs) := hl
+  rw [view_setKey]
+  unfold Spec.onEvents
+  rw [hv]
+
+theorem replace_ok {s s' : St D} {b : String} {i : Int} {e : Ev D}
+    (hr : replace s b i e = .ok s') :
+    ∃ m evs, lookup s b = some (m, evs) ∧ s' = setKey s b (m, replaceIn evs i e) := by
+  unfold replace at hr
+  cases hl : lookup s b with
+  | none => rw [hl] at hr; cases hr
+  | some p =>
+    obtain ⟨m, evs⟩ := p
+    rw [hl] at hr
+    simp only [Except.ok.injEq] at hr
+    exact ⟨m, evs, rfl, hr.symm⟩
+
+theorem replace_inv {s s' : St D} {b : String} {i : Int} {e : Ev D} (h : Inv s)
+    (hr : replace s b i e = .ok s') : Inv s' := by
+  obtain ⟨m, evs, hl, rfl⟩ := replace_ok hr
+  exact setKey_inv h b (replaceIn_ok (inv_lookup h hl) i e)
+
+/-- for ANY id `i` (of this bucket, of another bucket, or of none) -/
+theorem replace_view {s s' : St D} {b : String} {i : Int} {e : Ev D} (_h : Inv s)
+    (hr : replace s b i e = .ok s') : view s' = Spec.replaceId (view s) b i e := by
+  obtain ⟨m, evs, hl, rfl⟩ := replace_ok hr
+  exact view_onEvents hl (fun es => replaceIn es i e)
+
+theorem replace_missing {s : St D} {b : String} (_h : Inv s) (hb : view s b = none)
+    (i : Int) (e : Ev D) : replace s b i e = .error .keyError := by
+  have hl : lookup s b = none := hb
+  unfold replace; rw [hl]
+
+theorem replace_exists {s : St D} {b : String} (_h : Inv s) (hb : (view s b).isSome)
+    (i : Int) (e : Ev D) : ∃ s', replace s b i e = .ok s' := by
+  unfold replace
+  cases hl : lookup s b with
+  | none => have : view s b = none := hl; rw [this] at hb; cases hb
+  | some p => exact ⟨_, rfl⟩
+
+theorem insertOne_new_ok {s s' : St D} {b : String} {e : Ev D} {oi : Option Int}
+    (he : e.id = none) (hi : insertOne s b e = .ok (s', oi)) :
+    ∃ m evs, lookup s b = some (m, evs) ∧ oi = some (nextId evs) ∧
+      s' = setKey s b (m, evs ++ [{ e with id := some (nextId evs) }]) := by
+  unfold insertOne at hi
+  rw [he] at hi
+  simp only at hi
+  cases hl : lookup s b with
+  | none => rw [hl] at hi; cases hi
+  | some p =>
+    obtain ⟨m, evs⟩ := p
+    rw [hl] at hi
+    simp only [Except.ok.injEq, Prod.mk.injEq] at hi
+    exact ⟨m, evs, rfl, hi.2.symm, hi.1.symm⟩
+
+theorem insertOne_carry_ok {s s' : St D} {b : String} {e : Ev D} {i : Int} {oi : Option Int}
+    (he : e.id = some i) (hi : insertOne s b e = .ok (s', oi)) :
+    oi = some i ∧ replace s b i e = .ok s' := by
+  unfold insertOne at hi
+  rw [he] at hi
+  simp only at hi
+  cases hr : replace s b i e with
+  | error x => rw [hr] at hi; cases hi
+  | ok s'' =>
+    rw [hr] at hi
+    simp only [Except.map, Except.ok.injEq, Prod.mk.injEq] at hi
+    exact ⟨hi.2.symm, by rw [hi.1]⟩
+
+theorem insertOne_inv {s s' : St D} {b : String} {e : Ev D} {oi : Option Int} (h : Inv s)
+    (hi : insertOne s b e = .ok (s', oi)) : Inv s' := by
+  cases he : e.id with
+  | none =>
+    obtain ⟨m, evs, hl, _, rfl⟩ := insertOne_new_ok he hi
+    exact setKey_inv h b (append_ok (inv_lookup h hl) e (nextId_not_mem evs))
+  | some i => exact replace_inv h (insertOne_carry_ok he hi).2
+
+/-- an event without id is appended under an id fresh in THIS bucket -/
+theorem insertOne_view' {s s' : St D} {b : String} {e : Ev D} {oi : Option Int} (_h : Inv s)
+    (he : e.id = none) (hi : insertOne s b e = .ok (s', oi)) :
+    ∃ i, oi = some i ∧ (view s b).isSome ∧ view s' = Spec.insert (view s) b i e ∧
+      i ∉ Spec.ids (view s) b := by
+  obtain ⟨m, evs, hl, ho, rfl⟩ := insertOne_new_ok he hi
+  have hv : view s b = some (m, evs) := hl
+  refine ⟨nextId evs, ho, by rw [hv]; rfl, ?_, ?_⟩
+  · exact view_onEvents hl (fun es => es ++ [{ e with id := some (nextId evs) }])
+  · unfold Spec.ids; rw [hv]; exact nextId_not_mem evs
+
+theorem insertOne_view {s s' : St D} {b : String} {e : Ev D} {i : Int} (h : Inv s)
+    (he : e.id = none) (hi : insertOne s b e = .ok (s', some i)) :
+    (view s b).isSome ∧ view s' = Spec.insert (view s) b i e ∧ i ∉ Spec.ids (view s) b := by
+  obtain ⟨j, hj, h1, h2, h3⟩ := insertOne_view' h he hi
+  cases hj
+  exact ⟨h1, h2, h3⟩
+
+/-- an event carrying an id is a `replace` (nothing happens if the bucket has no such id) -/
+theorem insertOne_carry_view {s s' : St D} {b : String} {e : Ev D} {i : Int} {oi : Option Int}
+    (h : Inv s) (he : e.id = some i) (hi : insertOne s b e = .ok (s', oi)) :
+    oi = some i ∧ (view s b).isSome ∧ view s' = Spec.replaceId (view s) b i e := by
+  obtain ⟨h1, h2⟩ := insertOne_carry_ok he hi
+  refine ⟨h1, ?_, replace_view h h2⟩
+  obtain ⟨m, evs, hl, _⟩ := replace_ok h2
+  have hv : view s b = some (m, evs) := hl
+  rw [hv]; rfl
+
+theorem insertOne_missing {s : St D} {b : String} (_h : Inv s) (hb : view s b = none)
+    (e : Ev D) : insertOne s b e = .error .keyError := by
+  have hl : lookup s b = none := hb
+  unfold insertOne replace
+  cases e.id with
+  | none => simp only; rw [hl]
+  | some i => simp only; rw [hl]; rfl
+
+theorem delete_ok {s s' : St D} {b : String} {i : Int} {r : Bool}
+    (hd : delete s b i = .ok (s', r)) :
+    ∃ m evs, lookup s b = some (m, evs) ∧ s' = setKey s b (m, (removeLast evs i).1) ∧
+      r = (removeLast evs i).2 := by
+  unfold delete at hd
+  cases hl : lookup s b with
+  | none => rw [hl] at hd; cases hd
+  | some p =>
+    obtain ⟨m, evs⟩ := p
+    rw [hl] at hd
+    simp only [Except.ok.injEq, Prod.mk.injEq] at hd
+    exact ⟨m, evs, rfl, hd.1.symm, hd.2.symm⟩
+
+theorem delete_inv {s s' : St D} {b : String} {i : Int} {r : Bool} (h : Inv s)
+    (hd : delete s b i = .ok (s', r)) : Inv s' := by
+  obtain ⟨m, evs, hl, rfl, _⟩ := delete_ok hd
+  have ho := inv_lookup h hl
+  rw [removeLast_eq ho.1]
+  exact setKey_inv h b (filter_ok ho _)
+
+/-- for ANY id `i`; the flag says whether the bucket had it -/
+theorem delete_view {s s' : St D} {b : String} {i : Int} {r : Bool} (h : Inv s)
+    (hd : delete s b i = .ok (s', r)) :
+    view s' = Spec.delete (view s) b i ∧ (r = true ↔ i ∈ Spec.ids (view s) b) := by
+  obtain ⟨m, evs, hl, rfl, rfl⟩ := delete_ok hd
+  have ho := inv_lookup h hl
+  have hv : view s b = some (m, evs) := hl
+  rw [removeLast_eq ho.1]
+  refine ⟨view_onEvents hl (fun es => es.filter (fun x => decide (x.id ≠ some i))), ?_⟩
+  unfold Spec.ids; rw [hv]; simp
+
+theorem delete_missing {s : St D} {b : String} (_h : Inv s) (hb : view s b = none) (i : Int) :
+    delete s b i = .error .keyError := by
+  have hl : lookup s b = none := hb
+  unfold delete; rw [hl]
+
+theorem getEvent_eq {s : St D} {b : String} {m : Meta} {es : List (Ev D)} (h : Inv s)
+    (hv : view s b = some (m, es)) (i : Int) :
+    getEvent s b i = .ok (es.find? (fun x => decide (x.id = some i))) := by
+  have hl : lookup s b = some (m, es) := hv
+  unfold getEvent; rw [hl]
+  simp only
+  rw [find_reverse (inv_lookup h hl).1]
+
+theorem getEvent_missing {s : St D} {b : String} (_h : Inv s) (hb : view s b = none) (i : Int) :
+    getEvent s b i = .error .keyError := by
+  have hl : lookup s b = none := hb
+  unfold getEvent; rw [hl]
+
+theorem replaceLast_ok {s s' : St D} {b : String} {e : Ev D} (hr : replaceLast s b e = .ok s') :
+    ∃ m evs l, lookup s b = some (m, evs) ∧ newest evs = some l ∧
+      s' = setKey s b (m, replaceIn evs (l.id.getD 0) e) := by
+  unfold replaceLast at hr
+  cases hl : lookup s b with
+  | none => rw [hl] at hr; cases hr
+  | some p =>
+    obtain ⟨m, evs⟩ := p
+    rw [hl] at hr
+    simp only at hr
+    cases hn : newest evs with
+    | none => rw [hn] at hr; cases hr
+    | some l =>
+      rw [hn] at hr
+      simp only [Except.ok.injEq] at hr
+      exact ⟨m, evs, l, rfl, hn, hr.symm⟩
+
+theorem replaceLast_inv {s s' : St D} {b : String} {e : Ev D} (h : Inv s)
+    (hr : replaceLast s b e = .ok s') : Inv s' := by
+  obtain ⟨m, evs, l, hl, _, rfl⟩ := replaceLast_ok hr
+  exact setKey_inv h b (replaceIn_ok (inv_lookup h hl) _ e)
+
+/-- `replace_last` rewrites the event a `get_events(limit=1)` returns, a newest one -/
+theorem replaceLast_view {s : St D} {b : String} {m : Meta} {es : List (Ev D)} (_h : Inv s)
+    (hv : view s b = some (m, es)) (hne : es ≠ []) (e : Ev D) :
+    ∃ t s', Spec.IsNewest es t ∧ getEvents s b 1 none none = .ok [t] ∧
+      replaceLast s b e = .ok s' ∧ view s' = Spec.replaceId (view s) b (t.id.getD 0) e := by
+  have hl : lookup s b = some (m, es) := hv
+  obtain ⟨t, hn, hnew⟩ := newest_spec hne
+  refine ⟨t, setKey s b (m, replaceIn es (t.id.getD 0) e), hnew, ?_, ?_, ?_⟩
+  · unfold getEvents; rw [hl]
+    simp only
+    unfold newest at hn
+    obtain ⟨ys, hys⟩ := List.getLast?_eq_some_iff.mp hn
+    rw [hys]
+    simp [applyLimit]
+  · unfold replaceLast; rw [hl]; simp only; rw [hn]
+  · exact view_onEvents hl (fun es => replaceIn es (t.id.getD 0) e)
+
+theorem replaceLast_missing {s : St D} {b : String} (_h : Inv s) (hb : view s b = none)
+    (e : Ev D) : replaceLast s b e = .error .keyError := by
+  have hl : lookup s b = none := hb
+  unfold replaceLast; rw [hl]
+
+theorem replaceLast_empty {s : St D} {b : String} {m : Meta} (_h : Inv s)
+    (hb : view s b = some (m, [])) (e : Ev D) : replaceLast s b e = .error .indexError := by
+  have hl : lookup s b = some (m, []) := hb
+  unfold replaceLast; rw [hl]; rfl
+
 end Aw.Store.Memory
